@@ -64,3 +64,24 @@ Proof. vm_compute. repeat split. Qed.
 Theorem conn_reader_pong_by_magic_only_refuted :
   exists payload, length payload = 4%nat /\ conn_reader_step_gen false payload = Panic PIndex.
 Proof. exists [0x03; 0xfb; 0x69; 0xdc]. split; [reflexivity | vm_compute; reflexivity]. Qed.
+
+(** a design of the capability / protocol list loop of tlb/dns.go that skips a list head it
+    cannot decode ("continue") never returns: a failed head consumes nothing and the
+    `next` bit is only read after a head, so every iteration fails at the same position.
+    No number of iterations is enough - for any head decoder, as soon as one head fails;
+    in particular when the cell ends right after a `next` bit that is set. *)
+Theorem dns_list_skipping_heads_refuted :
+  forall (item : list bool -> option (list bool)) s, item s = None ->
+  forall fuel, dns_list item true fuel (true :: s) = Err EFuel.
+Proof.
+  intros item s E fuel. unfold dns_list.
+  induction fuel as [| f IH]; [reflexivity|]. cbn [dns_list_loop]. rewrite E. exact IH.
+Qed.
+
+Corollary dns_list_truncated_after_next_refuted :
+  forall item, (forall s r, item s = Some r -> (length r < length s)%nat) ->
+  forall fuel, dns_list item true fuel [true] = Err EFuel.
+Proof.
+  intros item Hp fuel. apply dns_list_skipping_heads_refuted.
+  destruct (item []) as [r|] eqn:E; [|reflexivity]. apply Hp in E. cbn in E. lia.
+Qed.
